@@ -258,10 +258,13 @@ def _numeric_chunk(args):
           # reduce "none" keeps the first matches in contact-list order, which is not part of the result: compare the slots as a set
           bits, num = int(mjm.sensor_intprm[s, 0]), int(mjm.sensor_intprm[s, 2])
           width = n // num
-          if red == 0:
-            # only decidable when every match fits (otherwise the subset depends on the order of the contact list)
-            if e[0] > num if (bits & 1) else False:
+          if red in (0, 1, 2):
+            # "none": only decidable when every match fits (otherwise the subset depends on the order of the contact list).  mindist / maxforce: contacts
+            # that tie in the criterion (equal depths, zero forces) have no defined order, so the filled slots are compared as a set as well
+            if red == 0 and (e[0] > num if (bits & 1) else False):
               continue
+            if red != 0 and (bits & 1) and e[0] > num:
+              continue  # more matches than slots: which of several tied ones is kept is not defined either
             key = lambda sl: tuple(np.round(sl, 3))
             gs, es = sorted(slots_any(g, num, width), key=key), sorted(slots_any(e, num, width), key=key)
             if len(gs) != len(es):
